@@ -425,6 +425,63 @@ def gen_rawq(rng, tier):
     return " ".join(c) + "|" + ";".join(ops)
 
 
+def gen_idle(rng, tier):
+    """kept-open TCP connection, frames nobody is waiting for (the duplicate of an answer, or an
+    answer with an unknown id) arrive while the connection is idle, and the chunking splits such
+    a frame across an idle -> busy boundary: some reads (`proc`) while idle, then the next query
+    is queued, then the rest is read.  Read whole, the frame is simply dropped; the outcome must
+    be the same."""
+    c = ["seed=%d" % rng.randint(1, 10 ** 6)]
+    chunk = rng.choice([1, 2, 3, 5, 7, 11, 13, 30, 44])
+    c.append("chunk=%d" % chunk)
+    if rng.random() < 0.3:
+        c.append("wpat=%s" % pat_write(rng))
+    c.insert(0, "servers=1 flags=usevc,stayopen,noedns tries=3 timeout=1000")
+    if rng.random() < 0.3:
+        c.append("sockstatecb=1")
+    ops = ["note fam=idle"]
+    T = 0
+    for rnd in range(rng.choice([1, 2, 3])):
+        T += 1
+        ops.append("send %d %s IN A rd" % (T, name(T)))
+        ops.extend(RUN)
+        first = T
+        # the answer, followed by frames nobody waits for
+        extra = rng.choice(["dup", "dup", "unknown", "both"])
+        ans = "an=A:10.4.4.%d" % rng.randint(1, 250)
+        stream = 0
+        if extra in ("dup", "both"):
+            d = rng.choice([2, 2, 3])
+            ops.append("rsp xl %s,dup=%d" % (ans, d))
+            stream += d * 47
+        else:
+            ops.append("rsp xl %s" % ans)
+            stream += 47
+        if extra in ("unknown", "both"):
+            ops.append("rsp xl %s,id=+%d" % (ans, rng.randint(1, 9)))
+            stream += 47
+        # read part of it, one read per `proc`: the answer completes somewhere in here, the
+        # connection goes idle, further reads happen while it is idle
+        total_reads = (stream + chunk - 1) // chunk
+        lo = (47 + chunk - 1) // chunk
+        if rng.random() < 0.8 and lo < total_reads:
+            # the answer is complete: the split is inside a frame nobody waits for
+            cands = [n for n in range(lo, total_reads) if (n * chunk) % 47 != 0] or [lo]
+            nproc = rng.choice(cands)
+        else:
+            nproc = rng.randint(1, max(1, total_reads - 1))
+        ops.extend(["proc"] * min(nproc, 150))
+        # idle -> busy: the next query is queued while a frame is half read
+        T += 1
+        ops.append("send %d %s IN %s rd" % (T, name(T), rng.choice(TYPES)))
+        ops.extend(RUN)
+        ops.append("rsp xl " + answer(rng))
+        ops.extend(RUN)
+    ops.append("rspall " + answer(rng))
+    ops.extend(RUN)
+    return " ".join(c) + "|" + ";".join(ops)
+
+
 def hexframe(payload):
     n = len(payload)
     return "%04x" % n + "".join("%02x" % b for b in payload)
@@ -532,8 +589,10 @@ def gen_c20(rng, tier, n):
             c = gen_multi(rng, tier)
         elif r < 0.88:
             c = gen_udpq(rng, tier)
-        elif r < 0.95:
+        elif r < 0.93:
             c = gen_rawq(rng, tier)
+        elif r < 0.985:
+            c = gen_idle(rng, tier)
         else:
             c = gen_junk(rng, tier)
         if rng.random() < 0.35:
